@@ -62,81 +62,112 @@ def c13_reference(hist, impl_out):
     """Spec-level oracle of C13, independent of the Lean model: the client is a byte queue
     `pending` (accepted, not yet handed to the OS); the peer must receive exactly the accepted
     stream; postponed/send-buffer size = len(pending); onWrite iff pending drains; interest
-    = (r unless suspended) + (w iff pending); no onRead while suspended.  The received stream is
-    additionally checked against the implementation's own `got` lines (see c13_ref_eq)."""
-    pending, inflight, inbox = [], [], []
-    su, closing, dead, registered = False, False, False, True
+    = (r unless suspended) + (w iff pending); no onRead while suspended.  Calls queued by `cb <op>` are made
+    inside the next onRead / onWrite and must behave exactly like calls made right after that poll round.  The received
+    stream is additionally checked against the implementation's own `got` lines (see c13_ref_eq)."""
+    S = {"pending": [], "inflight": [], "inbox": [], "su": False, "closing": False, "dead": False, "registered": True}
+    queued = []
     out = []
+
+    def api(t):
+        """write / read / suspend / resume on a live client; returns (result text, sends)"""
+        op, tx, res = t[0], [], "ok"
+        if op == "write":
+            d = unhex(t[1])
+            if not S["pending"]:
+                r = send_outcome(len(d), t[2])
+                tx.append(f"{len(d)}>{r}")
+                if r == "err" or r == 0:
+                    S["closing"] = True
+                    res = "w0 0"
+                else:
+                    k = 0 if r == "wb" else r
+                    S["inflight"] += d[:k]
+                    S["pending"] = d[k:]
+                    res = f"w1 {len(S['pending'])}"
+            else:
+                S["pending"] = S["pending"] + d
+                res = f"w1 {len(S['pending'])}"
+        elif op == "read":
+            m = int(t[1])
+            if S["inbox"]:
+                res = "rd1 " + hexs(S["inbox"][:m])
+                S["inbox"] = S["inbox"][m:]
+            else:
+                res = "rd0 -"
+        elif op == "suspend":
+            S["su"] = True
+        elif op == "resume":
+            S["su"] = False
+        return res, tx
+
     for line in hist:
         t = line.split()
         op = t[0]
         res, cb, tx = "ok", "", []
-        if (op == "peersend" and t[1] == "-") or (op == "read" and t[1] == "0"):
+        if (op == "peersend" and t[1] == "-") or (op == "read" and t[1] == "0") or (op == "cb" and t[1:3] == ["read", "0"]):
             out.append("bad-op")
             continue
         if op == "peerread":
-            res = "got " + hexs(inflight)
-            inflight = []
+            res = "got " + hexs(S["inflight"])
+            S["inflight"] = []
         elif op == "ready":
-            if dead:
+            if S["dead"]:
                 pass
-            elif closing:
-                cb, dead, closing, registered = "C", True, False, False
+            elif S["closing"]:
+                cb = "C"
+                S.update(dead=True, closing=False, registered=False)
             else:
                 sel = "" if t[1] == "none" else t[1]
-                if "r" in sel and not su and inbox and registered:
+                if "r" in sel and not S["su"] and S["inbox"] and S["registered"]:
                     cb = "R"
-                elif "w" in sel and pending and registered:
-                    n = len(pending)
+                elif "w" in sel and S["pending"] and S["registered"]:
+                    n = len(S["pending"])
                     r = send_outcome(n, t[2])
                     tx.append(f"{n}>{r}")
                     if r == "wb":
                         pass
                     elif r == "err" or r == 0:
-                        pending, cb, dead, registered = [], "C", True, False
+                        cb = "C"
+                        S.update(pending=[], dead=True, registered=False)
                     else:
-                        inflight += pending[:r]
-                        pending = pending[r:]
-                        if not pending:
+                        S["inflight"] += S["pending"][:r]
+                        S["pending"] = S["pending"][r:]
+                        if not S["pending"]:
                             cb = "W"
-        elif dead:
+                if cb in ("R", "W") and queued:
+                    for q in queued:
+                        r2, tx2 = api(q)
+                        tx += tx2
+                        if q[0] == "write":
+                            cb += "(" + r2.replace(" ", ".") + ")"
+                        elif q[0] == "read":
+                            cb += f"({r2.split()[0]}.{0 if r2.split()[1] == '-' else len(r2.split()[1]) // 2})"
+                        else:
+                            cb += "(s)" if q[0] == "suspend" else "(u)"
+                    queued = []
+                    if S["closing"]:
+                        # run() goes round its loop: the closing loop delivers onClosed before the next poll
+                        cb += "C"
+                        S.update(dead=True, closing=False, registered=False)
+        elif S["dead"]:
             out.append("dead")
             continue
-        elif op == "write":
-            d = unhex(t[1])
-            if not pending:
-                r = send_outcome(len(d), t[2])
-                tx.append(f"{len(d)}>{r}")
-                if r == "err" or r == 0:
-                    closing = True
-                    res = "w0 0"
-                else:
-                    k = 0 if r == "wb" else r
-                    inflight += d[:k]
-                    pending = d[k:]
-                    res = f"w1 {len(pending)}"
-            else:
-                pending = pending + d
-                res = f"w1 {len(pending)}"
-        elif op == "read":
-            m = int(t[1])
-            if inbox:
-                res = "rd1 " + hexs(inbox[:m])
-                inbox = inbox[m:]
-            else:
-                res = "rd0 -"
+        elif op == "cb":
+            if len(queued) >= 8:
+                out.append("bad-op")
+                continue
+            queued.append(t[1:])
+        elif op in ("write", "read", "suspend", "resume"):
+            res, tx = api(t)
         elif op == "peersend":
-            inbox = inbox + unhex(t[1])
-        elif op == "suspend":
-            su = True
-        elif op == "resume":
-            su = False
-        if dead:
-            intr, sb, s = "none", 0, 0
+            S["inbox"] = S["inbox"] + unhex(t[1])
+        if S["dead"]:
+            intr, sb, su_ = "none", 0, 0
         else:
-            intr = (("" if su else "r") + ("w" if pending else "")) or "-"
-            sb, s = len(pending), int(su)
-        out.append(f"{res} sb={sb} su={s} in={intr} cb={cb or '-'} tx={','.join(tx) or '-'}")
+            intr = (("" if S["su"] else "r") + ("w" if S["pending"] else "")) or "-"
+            sb, su_ = len(S["pending"]), int(S["su"])
+        out.append(f"{res} sb={sb} su={su_} in={intr} cb={cb or '-'} tx={','.join(tx) or '-'}")
     return out
 
 
@@ -148,10 +179,24 @@ def c13_stream_check(hist, impl_out):
     received stream == prefix of the concatenation of the data of writes that returned true,
     of length = number of bytes the intercepted sends handed to the OS.  Returns None or text."""
     accepted, received, handed = [], [], 0
+    queued = []
     for line, o in zip(hist, impl_out):
         t, ot = line.split(), o.split()
         if t[0] == "write" and ot[0] == "w1":
             accepted += unhex(t[1])
+        if t[0] == "cb" and ot[0] == "ok":
+            queued.append(t[1:])
+        if t[0] == "ready":
+            cbf = [f for f in ot if f.startswith("cb=")]
+            if cbf and "(" in cbf[0]:
+                # the callback made the queued calls: `(w1.n)` marks an inner write that returned true
+                marks = re.findall(r"\(([^)]*)\)", cbf[0])
+                if len(marks) != len(queued):
+                    return f"the callback made {len(marks)} calls, {len(queued)} were queued"
+                for q, mk in zip(queued, marks):
+                    if q[0] == "write" and mk.startswith("w1"):
+                        accepted += unhex(q[1])
+                queued = []
         if ot[0] == "got":
             received += unhex(ot[1])
         for f in ot:
@@ -225,6 +270,10 @@ def c13_random_history(rng, length):
             h.append(f"ready {rng.choice(['w', 'w', 'rw', 'rw', 'r', 'none'])} {o}")
         elif k < 0.70:
             h.append(f"read {rng.choice([1, 2, 5, 100])}")
+        elif k < 0.73:
+            # a call made inside the next onRead / onWrite
+            h.append("cb " + rng.choice([f"write {hexs([rng.randrange(256) for _ in range(rng.choice([1, 3, 8, 40]))])} {o}",
+                                         "suspend", "resume", f"read {rng.choice([1, 5, 100])}"]))
         elif k < 0.78:
             h.append(f"peersend {hexs([rng.randrange(256) for _ in range(rng.choice([1, 2, 7]))])}")
         elif k < 0.86:
@@ -235,6 +284,25 @@ def c13_random_history(rng, length):
             h.append("resume")
     h += ["ready w all", "ready w all", "peerread"]
     return h
+
+
+def c13_reentrant_histories():
+    """calls made from INSIDE onWrite / onRead (op `cb`): the backlog of a partial write drains, the onWrite callback writes again
+    (every send outcome), suspends / resumes / reads; then further poll rounds and the peer reads everything"""
+    hs = []
+    inner_sets = [["cb write a1a2a3a4 %s"], ["cb write a1a2a3a4 %s", "cb write b1b2 all"], ["cb suspend", "cb write a1a2a3a4 %s"],
+                  ["cb write a1a2a3a4 %s", "cb suspend"], ["cb write a1 %s", "cb resume"], ["cb read 2", "cb write a1a2a3a4 %s"]]
+    for o1 in ("1", "half", "wb"):
+        for inner in inner_sets:
+            for o2 in ("wb", "1", "half", "all", "err", "0"):
+                for tail in (["ready w all", "ready w all"], ["ready w 1", "ready rw half", "ready w all", "ready w all"],
+                             ["resume", "ready w wb", "ready w all", "ready w all"]):
+                    h = ["write 0102030405 " + o1] + [x % o2 if "%s" in x else x for x in inner]
+                    h += ["ready w all"] + tail + ["peerread"]
+                    hs.append(h)
+                    # the same calls inside onRead
+                    hs.append(["peersend c1c2c3"] + [x % o2 if "%s" in x else x for x in inner] + ["ready r all"] + tail + ["peerread"])
+    return hs
 
 
 class FaultCounter:
@@ -295,12 +363,13 @@ def check_c13(ctx):
         if not proof_ok:
             nr *= 4
         rnd = [c13_random_history(rng, rng.choice([4, 8, 16, 30, 60])) for _ in range(nr)]
-        hs = hs + ex + ex_err + rnd
-        ctx.cov["rule"] = (f"corpus ({ncorpus}) + exhaustive: every sequence of send outcomes of length <= {L} over "
+        reent = c13_reentrant_histories()
+        hs = hs + reent + ex + ex_err + rnd
+        ctx.cov["rule"] = (f"corpus ({ncorpus}) + re-entrant family ({len(reent)} histories: writes / suspend / resume / read made inside onWrite and onRead (op cb), every send outcome of the inner write x 3 outer outcomes x 6 call sets x 3 continuations) + exhaustive: every sequence of send outcomes of length <= {L} over "
                            f"{{wouldblock, 1, half, all}} on {len(C13_PATTERNS)} write/ready/suspend patterns ({len(ex)} histories) + every "
                            f"sequence of length <= {3 if quick else 4} over {{wouldblock, error, 0, 2, half, all}} ({len(ex_err)}) + {len(rnd)} random "
                            "histories of 4..60 ops (write sizes 0..200, outcomes wb/err/0/any count/half/all, ready with any reported subset, "
-                           "read, peersend, peerread, suspend, resume); distinct_nontrivial = distinct (op-kind set, last three results, final observation)")
+                           "read, peersend, peerread, suspend, resume, and the same calls queued with `cb` for the next onRead/onWrite callback); distinct_nontrivial = distinct (op-kind set, last three results, final observation)")
         ctx.cov["exhaustive"] = False
         ctx.cov["exhaustive_scope"] = f"send-outcome sequences of length<={L} over 4 outcomes x {len(C13_PATTERNS)} patterns: {len(ex)} histories"
         ops = {}
